@@ -12,7 +12,7 @@ combined (`CanonSet`).  `denS s ver a` — address `a` of family `ver` is denote
 `canonset_ext` (Lemmas/CanonSetL) is the uniqueness theorem: two such block sets with the
 same denotation have the same members.
 -/
-import NetaddrVerif.Lemmas.IPSetL5
+import NetaddrVerif.Lemmas.IPSetL7
 namespace NV.C06
 open NV NV.IPSet
 
@@ -101,6 +101,30 @@ theorem shown_mem (s : St) (n : Net) : n ∈ iterCidrs s ↔ n ∈ s := by
 theorem shown_hostbit_free (s : St) (hs : Inv s) (n : Net) (hn : n ∈ iterCidrs s) :
     n.val = n.first ∧ n.WF := by
   have := hs.good n ((shown_mem s n).1 hn); exact ⟨this.2, this.1⟩
+
+/-- What `iter_cidrs()` / `repr()` / iteration show: placing the IPv6 space after the IPv4
+    space on one number line (`lin`), the shown list is `Canon`: ascending by address with
+    IPv4 before IPv6, every block aligned, pairwise disjoint, and no two combinable. -/
+theorem shown_canonical (s : St) (hs : Inv s) : Canon ((iterCidrs s).map lin) := canon_shown s hs
+
+/-- ... it is the unique such list: it is determined by the denoted addresses alone, so two
+    histories that denote the same addresses show exactly the same list -/
+theorem shown_unique (s t : St) (hs : Inv s) (ht : Inv t) (h : ∀ ver a, denS s ver a ↔ denS t ver a) :
+    iterCidrs s = iterCidrs t := IPSet.shown_unique s t hs ht h
+
+/-- ... and minimal: no list of networks denoting the same addresses is shorter -/
+theorem shown_minimal (s : St) (hs : Inv s) (l : List Net) (hl : ∀ n ∈ l, n.WF)
+    (h : ∀ ver a, denS l ver a ↔ denS s ver a) : (iterCidrs s).length ≤ l.length :=
+  IPSet.shown_minimal s hs l hl h
+
+/-- `pop()` removes exactly the block it returns and keeps the set canonical -/
+theorem pop_spec (s : St) (hs : Inv s) (b : Net) (hb : b ∈ s) :
+    ∃ s', pop s b = .ok s' ∧ Inv s' ∧
+      ∀ ver a, denS s' ver a ↔ denS s ver a ∧ ¬ (ver = b.ver ∧ b.first ≤ a ∧ a ≤ b.last) :=
+  IPSet.pop_spec s hs b hb
+
+/-- `copy()` / pickling / `copy.copy` / `deepcopy` give the same keys -/
+theorem copy_spec (s : St) (hs : Inv s) : Inv (copy s) ∧ (∀ n, n ∈ copy s ↔ n ∈ s) := IPSet.copy_spec s hs
 
 /-! ### non-vacuity -/
 example : (⟨4, 0x0a000005, 24⟩ : Net).WF := by simp [Net.WF, width]
